@@ -603,7 +603,7 @@ func checkCmd(opts *RunOpts, args []string) int {
 	}
 	if run.FRan {
 		_, vl, cv := boundedListVerdict(opts, prop, known, "bounded.faults.handler_positions", "none.txt", run.FFailing, run.FTotal,
-			"machine with B active, Set{A} (BExit, AEnter, BEnd, AState), two handler bindings, a panic (error / string) or a stall past HandlerTimeout injected at every (handler, binding)",
+			"machine with B active, Set{A} (BExit, AEnter, AnyEnter, BEnd, AState, AnyState), two handler bindings, a panic (error / string) or a stall past HandlerTimeout injected at every (handler, binding)",
 			"", "break fault containment (call returns Canceled, Exception carries the panic message / the timeout is reported, negotiation faults change nothing, final faults roll back the unfinished handlers, tick parity holds, a probe mutation executes afterwards)", nil)
 		if vl != "" {
 			violations = append(violations, vl)
